@@ -385,6 +385,12 @@ def call(objs, st, tmp):
             return f.apply(**kw)
         return f.applyAlongDimensions(**kw)
     if act == 'interp':
+        if a.get('argof'):
+            # the new coordinate values are a VARIABLE of another file (as
+            # in f.interpDimension('lev', g.variables['lev']))
+            return f.interpDimension(
+                a['d'], objs[a['argof'] - 1].variables[a['d']],
+                extrapolate=bool(a['ex']))
         return f.interpDimension(a['d'], np.array(a['nxs'], dtype='d'),
                                  extrapolate=bool(a['ex']))
     if act == 'reopen':
@@ -918,6 +924,25 @@ def gen_program(rnd, depth, focus=None, isolation=False, templates=None,
                 st = {'act': 'query', 'src': src, 'others': [], 'args': q}
             else:
                 st = gen_step(rnd, shadows[src - 1], src, shadows, focus)
+            if st['act'] == 'interp' and rnd.random() < 0.5:
+                # the target levels are the coordinate variable of a file
+                d = st['args']['d']
+                cands = []
+                for i, o in enumerate(objs):
+                    v = o.variables.get(d) if hasattr(o.variables, 'get') \
+                        else None
+                    if v is not None and tuple(v.dimensions) == (d,) and \
+                            type(v).__module__.startswith('PseudoNetCDF'):
+                        vals = np.ma.filled(np.asarray(v[...], dtype='d'),
+                                            np.nan)
+                        if vals.size >= 1 and np.isfinite(vals).all() and \
+                                (vals == np.round(vals)).all() and \
+                                not np.ma.is_masked(v[...]):
+                            cands.append((i + 1, [int(x) for x in vals]))
+                if cands:
+                    o, vals = rnd.choice(cands)
+                    st['args']['argof'] = o
+                    st['args']['nxs'] = vals
             st['_n'] = n
             try:
                 with np.errstate(all='ignore'):
